@@ -24,17 +24,18 @@ CONSTANTS MaxDepth,            \* perturbations per path
 VARIABLES cls, seed, root, par, val, kind, grp, depth,
           mk,      \* kind of the mutator that led here ("" if none)
           warm,    \* the object was compared / hashed before it was mutated
-          ckey     \* implementation-shaped: the comparison key the object has cached (<<>> = none)
-vars == <<cls, seed, root, par, val, kind, grp, depth, mk, warm, ckey>>
+          ckey,    \* implementation-shaped: the comparison key the object has cached (<<>> = none)
+          nn       \* update_initial_state: max_history_length (0 = argument left out)
+vars == <<cls, seed, root, par, val, kind, grp, depth, mk, warm, ckey, nn>>
 
 Init == /\ cls \in Classes
         /\ seed \in {"default", "full"}
         /\ root = (IF seed = "default" THEN SeedDefault(cls) ELSE SeedFull(cls))
         /\ par = root /\ val = root /\ kind = "node" /\ grp = "@" \o seed /\ depth = 0
-        /\ mk = "" /\ warm = FALSE /\ ckey = <<>>
+        /\ mk = "" /\ warm = FALSE /\ ckey = <<>> /\ nn = 0
 
 Open == kind \in {"node", "perturb"}          \* reorder and mutate are terminal
-NoMut == UNCHANGED <<mk, warm, ckey>>
+NoMut == UNCHANGED <<mk, warm, ckey, nn>>
 
 Perturb(g, t) == /\ Open /\ depth < MaxDepth
                  /\ ~SameValue(t, val[g])
@@ -51,22 +52,33 @@ Reorder(g, t) == /\ Open
 (* the cached key after a mutator: a warm object holds the key of its old values; the mutator drops it -      *)
 (* unless the deviation keeps it for the mutators that do not go through a setter                             *)
 KeyAfter(w, kept, before) == IF w /\ kept THEN <<DescKey(before)>> ELSE <<>>
-Mutate(m, name, b, w) ==
-                 /\ Open
+Mutate(m, name, b, w, n) ==
+                 /\ Open /\ nn' = n
                  /\ IsMutation(cls, m, val, b)
                  /\ par' = val /\ val' = b /\ kind' = "mutate" /\ grp' = name /\ mk' = m /\ warm' = w
-                 /\ ckey' = KeyAfter(w, DEV_StaleKeyOnMove /\ m # "set", Desc(val, MotBefore(m)))
+                 /\ ckey' = KeyAfter(w, DEV_StaleKeyOnMove /\ m \in {"move", "flat"}, Desc(val, MotBefore(m)))
                  /\ UNCHANGED <<cls, seed, root, depth>>
-MutateSet(g, t, w) == depth <= MutDepth /\ Mutate("set", SetName(cls, g, val[g], t), [val EXCEPT ![g] = t], w)
-MutateMove(w) == Mutate("move", "translate_rotate", val, w)
-MutateFlat(w) == Mutate("flat", "convert_to_2d", val, w)
+MutateSet(g, t, w) == depth <= MutDepth /\ Mutate("set", SetName(cls, g, val[g], t), [val EXCEPT ![g] = t], w, 0)
+MutateMove(w) == Mutate("move", "translate_rotate", val, w, 0)
+MutateFlat(w) == Mutate("flat", "convert_to_2d", val, w, 0)
+(* advancing a dynamic obstacle: default arguments (everything but the state left out) / everything given,   *)
+(* each without and with max_history_length 1, 2                                                             *)
+AdvArgs == {<<"d", "d", "d">>, <<"v1", "v1", "v2">>}          \* signal state, centre ids, shape ids
+MutateAdv(st, ar, n, w) ==
+  cls \in Advanced /\ Mutate("adv", "update_initial_state",
+      [val EXCEPT !["initial_state"] = st, !["initial_signal_state"] = ar[1], !["initial_center_lanelet_ids"] = ar[2],
+                  !["initial_shape_lanelet_ids"] = ar[3], !["prediction"] = "d", !["signal_series"] = "d"], w, n)
+MutateUpd(p, sg, w) ==
+  cls \in Advanced /\ Mutate("upd", "update_prediction", [val EXCEPT !["prediction"] = p, !["signal_series"] = sg], w, 0)
 
 PerturbSome == \E g \in GroupsOf(cls) : \E t \in Dom(cls, g) : Perturb(g, t)
 ReorderSome == \E g \in GroupsOf(cls) : \E t \in Dom(cls, g) : Reorder(g, t)
 SetSome     == \E g \in GroupsOf(cls) : \E t \in Dom(cls, g) : \E w \in BOOLEAN : MutateSet(g, t, w)
 MoveSome    == \E w \in BOOLEAN : MutateMove(w)
 FlatSome    == \E w \in BOOLEAN : MutateFlat(w)
-Next == PerturbSome \/ ReorderSome \/ SetSome \/ MoveSome \/ FlatSome
+AdvSome     == \E st \in {"v1", "v2"} : \E ar \in AdvArgs : \E n \in AdvLengths : \E w \in BOOLEAN : MutateAdv(st, ar, n, w)
+UpdSome     == \E p \in {"v1", "v2", "v3"} : \E sg \in {"d", "v1", "v2"} : \E w \in BOOLEAN : MutateUpd(p, sg, w)
+Next == PerturbSome \/ ReorderSome \/ SetSome \/ MoveSome \/ FlatSome \/ AdvSome \/ UpdSome
 Spec == Init /\ [][Next]_vars
 
 (* ---- the laws, on every explored node / edge ---- *)
@@ -83,7 +95,7 @@ InvThree       == /\ Expected3(cls, par, val) \in {"T", "F", "EITHER"}
                   /\ Expected3(cls, par, val) = Expected3(cls, val, par)
 (* history: descriptors before / after the mutator, and what the object answers with *)
 Before   == Desc(par, MotBefore(mk))
-After    == Desc(val, MotAfter(mk))
+After    == DescA(val, MotAfter(mk), IF mk = "adv" THEN AdvMark(par, nn) ELSE <<>>)
 ImplKey  == IF ckey = <<>> THEN DescKey(After) ELSE ckey[1]
 InvMutate  == kind = "mutate" => /\ ~ExpectedEqD(cls, Before, After)         \* the mutator changed something ...
                                  /\ ExpectedEqD(cls, After, After)
@@ -95,7 +107,7 @@ InvMotion  == \A m \in MutKinds : ExpectedEqD(cls, Desc(val, MotBefore(m)), Desc
 PropPerturb    == [][kind' = "perturb" => ~ExpectedEq(val, val') /\ par' = val]_vars
 PropReorder    == [][kind' = "reorder" => ExpectedEq(val, val') /\ ExpectedEq(root, val) = ExpectedEq(root, val')]_vars
 PropMutate     == [][kind' = "mutate" => par' = val /\ IsMutation(cls, mk', val, val')
-                                         /\ (mk' = "set") = ~ExpectedEq(val, val')]_vars
+                                         /\ (mk' \in {"set", "adv", "upd"}) = ~ExpectedEq(val, val')]_vars
 
 (* ---- generation: the table once, one case per explored state ---- *)
 ASSUME PrintT(<<"TABLE", ToJson(ClassTable)>>)
@@ -108,5 +120,5 @@ SetRec == [c \in Classes |-> [g \in GroupsOf(c) |->
              {<<pr[1], pr[2], SetName(c, g, pr[1], pr[2])>> : pr \in SetPairs(c, g)}]]
 ASSUME PrintT(<<"SETTERS", ToJson(SetRec)>>)
 Emit == PrintT(<<"CASE", ToJson([cls |-> cls, x |-> par, y |-> val, kind |-> kind, grp |-> grp, seed |-> seed,
-                                 depth |-> depth, mk |-> mk, warm |-> IF warm THEN 1 ELSE 0])>>)
+                                 depth |-> depth, mk |-> mk, warm |-> IF warm THEN 1 ELSE 0, n |-> nn])>>)
 ==============================================================================
